@@ -66,6 +66,7 @@ type Cfg struct {
 	Files         func(root string) // populate the file root
 	NoOutbox      bool              // do not start processOutbox
 	Name          string
+	NewsDelimiter string // the documented configuration option of the same name
 }
 
 type World struct {
@@ -193,7 +194,7 @@ func (w *World) Start() {
 		hotline.WithLogger(discardLogger),
 		hotline.WithConfig(hotline.Config{
 			Name: name, Description: "d", FileRoot: w.FileRoot,
-			IgnoreFiles: w.Cfg.IgnoreFiles, PreserveResourceForks: w.Cfg.PreserveForks,
+			IgnoreFiles: w.Cfg.IgnoreFiles, PreserveResourceForks: w.Cfg.PreserveForks, NewsDelimiter: w.Cfg.NewsDelimiter,
 		}),
 	)
 	must(err)
